@@ -79,60 +79,67 @@ impl Packet {
         }
 
         let packet = packet.freeze();
-        let packet = match packet_type {
-            PacketType::Connect => {
-                let (connect, will, login) = Connect::read(fixed_header, packet)?;
-                Packet::Connect(connect, will, login)
-            }
-            PacketType::Publish => {
-                let publish = Publish::read(fixed_header, packet)?;
-                Packet::Publish(publish)
-            }
-            PacketType::Subscribe => {
-                let subscribe = Subscribe::read(fixed_header, packet)?;
-                Packet::Subscribe(subscribe)
-            }
-            PacketType::Unsubscribe => {
-                let unsubscribe = Unsubscribe::read(fixed_header, packet)?;
-                Packet::Unsubscribe(unsubscribe)
-            }
-            PacketType::ConnAck => {
-                let connack = ConnAck::read(fixed_header, packet)?;
-                Packet::ConnAck(connack)
-            }
-            PacketType::PubAck => {
-                let puback = PubAck::read(fixed_header, packet)?;
-                Packet::PubAck(puback)
-            }
-            PacketType::PubRec => {
-                let pubrec = PubRec::read(fixed_header, packet)?;
-                Packet::PubRec(pubrec)
-            }
-            PacketType::PubRel => {
-                let pubrel = PubRel::read(fixed_header, packet)?;
-                Packet::PubRel(pubrel)
-            }
-            PacketType::PubComp => {
-                let pubcomp = PubComp::read(fixed_header, packet)?;
-                Packet::PubComp(pubcomp)
-            }
-            PacketType::SubAck => {
-                let suback = SubAck::read(fixed_header, packet)?;
-                Packet::SubAck(suback)
-            }
-            PacketType::UnsubAck => {
-                let unsuback = UnsubAck::read(fixed_header, packet)?;
-                Packet::UnsubAck(unsuback)
-            }
-            PacketType::PingReq => Packet::PingReq(PingReq),
-            PacketType::PingResp => Packet::PingResp(PingResp),
-            PacketType::Disconnect => {
-                let disconnect = Disconnect::read(fixed_header, packet)?;
-                Packet::Disconnect(disconnect)
-            }
+        let parse = move || -> Result<Packet, Error> {
+            Ok(match packet_type {
+                PacketType::Connect => {
+                    let (connect, will, login) = Connect::read(fixed_header, packet)?;
+                    Packet::Connect(connect, will, login)
+                }
+                PacketType::Publish => {
+                    let publish = Publish::read(fixed_header, packet)?;
+                    Packet::Publish(publish)
+                }
+                PacketType::Subscribe => {
+                    let subscribe = Subscribe::read(fixed_header, packet)?;
+                    Packet::Subscribe(subscribe)
+                }
+                PacketType::Unsubscribe => {
+                    let unsubscribe = Unsubscribe::read(fixed_header, packet)?;
+                    Packet::Unsubscribe(unsubscribe)
+                }
+                PacketType::ConnAck => {
+                    let connack = ConnAck::read(fixed_header, packet)?;
+                    Packet::ConnAck(connack)
+                }
+                PacketType::PubAck => {
+                    let puback = PubAck::read(fixed_header, packet)?;
+                    Packet::PubAck(puback)
+                }
+                PacketType::PubRec => {
+                    let pubrec = PubRec::read(fixed_header, packet)?;
+                    Packet::PubRec(pubrec)
+                }
+                PacketType::PubRel => {
+                    let pubrel = PubRel::read(fixed_header, packet)?;
+                    Packet::PubRel(pubrel)
+                }
+                PacketType::PubComp => {
+                    let pubcomp = PubComp::read(fixed_header, packet)?;
+                    Packet::PubComp(pubcomp)
+                }
+                PacketType::SubAck => {
+                    let suback = SubAck::read(fixed_header, packet)?;
+                    Packet::SubAck(suback)
+                }
+                PacketType::UnsubAck => {
+                    let unsuback = UnsubAck::read(fixed_header, packet)?;
+                    Packet::UnsubAck(unsuback)
+                }
+                PacketType::PingReq => Packet::PingReq(PingReq),
+                PacketType::PingResp => Packet::PingResp(PingResp),
+                PacketType::Disconnect => {
+                    let disconnect = Disconnect::read(fixed_header, packet)?;
+                    Packet::Disconnect(disconnect)
+                }
+            })
         };
 
-        Ok(packet)
+        // the whole frame is here: running out of bytes inside it means the packet is malformed,
+        // not that more bytes should be awaited
+        parse().map_err(|e| match e {
+            Error::InsufficientBytes(_) => Error::MalformedPacket,
+            e => e,
+        })
     }
 
     pub fn write(&self, write: &mut BytesMut, max_size: Option<u32>) -> Result<usize, Error> {
